@@ -37,6 +37,8 @@ type WorldSpec struct {
 	AllNamed bool
 	// NoHuge disables the occasional very large message.
 	NoHuge bool
+	// DupTS is the probability that a record repeats the timestamp of the record before it.
+	DupTS float64
 }
 
 var nameVocab = []string{"web", "web-1", "web-10", "api", "api.v2", "db", "db2", "cache", "worker", "a", "ab", "abc", "b", "proxy_1", "Z9"}
@@ -120,7 +122,37 @@ func GenWorld(r *Rng, s WorldSpec) World {
 		c.Log = genLog(cr.Sub("log"), s, i)
 		w.Containers = append(w.Containers, c)
 	}
+	if ar := r.Sub("ambiguous-pair"); s.Labels == "prefix" && n >= 2 && ar.Bool(0.08) {
+		// Two containers whose label sets differ but read the same once names and values
+		// are joined into one text (or hashed piecewise) without delimiting each of them.
+		pair := ambiguousPairs[ar.Intn(len(ambiguousPairs))]
+		i := ar.Intn(n)
+		j := (i + 1 + ar.Intn(n-1)) % n
+		w.Containers[i].Labels = cloneLabels(pair[0])
+		w.Containers[j].Labels = cloneLabels(pair[1])
+		if ar.Bool(0.5) {
+			// same image too, so that only these labels tell the two apart
+			w.Containers[j].Image, w.Containers[j].ImageID = w.Containers[i].Image, w.Containers[i].ImageID
+		}
+	}
 	return w
+}
+
+var ambiguousPairs = [][2]map[string]string{
+	{{"a": "1,b=2"}, {"a": "1", "b": "2"}},
+	{{"a": "1, b=2"}, {"a": "1", "b": "2"}},
+	{{"a": "1 b=2"}, {"a": "1", "b": "2"}},
+	{{"a": "1;b=2"}, {"a": "1", "b": "2"}},
+	{{"a": `1",b="2`}, {"a": "1", "b": "2"}},
+	{{"a": `1", b="2`}, {"a": "1", "b": "2"}},
+	{{"a": "1\nb=2"}, {"a": "1", "b": "2"}},
+	{{"a": "1|b=2"}, {"a": "1", "b": "2"}},
+	{{"a": "bc"}, {"ab": "c"}},
+	{{"a": "b", "ab": ""}, {"a": "", "ab": "b"}},
+	{{"x": "12", "y": ""}, {"x": "1", "y": "2"}},
+	{{"x": "1", "y": "2"}, {"x": "2", "y": "1"}},
+	{{"a": "1", "b": "2"}, {"a": "2", "b": "1"}},
+	{{"tier": "a,b"}, {"tier": "a", "b": ""}},
 }
 
 func genLog(r *Rng, s WorldSpec, ci int) []Record {
@@ -164,12 +196,20 @@ func genLog(r *Rng, s WorldSpec, ci int) []Record {
 	if !s.Unsorted {
 		sort.SliceStable(recs, func(a, b int) bool { return recs[a].TS < recs[b].TS })
 	}
+	if s.DupTS > 0 {
+		dr := r.Sub("dup-ts")
+		for j := 1; j < len(recs); j++ {
+			if dr.Bool(s.DupTS) {
+				recs[j].TS = recs[j-1].TS
+			}
+		}
+	}
 	return recs
 }
 
 var longConstLines = func() [][]byte {
 	var out [][]byte
-	for _, n := range []int{300, 1200, 2100, 4200, 9000} {
+	for _, n := range []int{300, 1200, 2100, 4200, 9000, 33000, 66000, 70000, 140000} {
 		b := make([]byte, n)
 		for i := range b {
 			b[i] = byte('a' + (i*5+n)%26)
